@@ -152,10 +152,17 @@ fn describe(c: &Case) -> Vec<String> {
 pub fn run(cfg: &RunCfg) -> Report {
     let mut rep = Report::new(
         "C03",
-        "exhaustive: module default {EXPLICIT, IMPLICIT, AUTOMATIC, none} × keyword {none, IMPLICIT, EXPLICIT} × class ×4 × position {type assignment, SEQUENCE component, SET component, CHOICE alternative, component of an anonymous nested type, SEQUENCE OF/SET OF element} × tagged kind {primitive, referenced SEQUENCE, referenced CHOICE, inline CHOICE, open type} (1440 points); automatic-tagging shapes (tag on no / each component × class × SEQUENCE/CHOICE × nested-only × after the marker) under every default; plus seeded random compositions with tags at every position. Observed: #[rasn(tag(..))] / automatic_tags via syn. Explicit marking on CHOICE/open-typed positions is not observable (rasn tags them explicitly itself) and is compared modulo that",
+        "[each also in one compilation together with modules of the other defaults, in two generation orders] exhaustive: module default {EXPLICIT, IMPLICIT, AUTOMATIC, none} × keyword {none, IMPLICIT, EXPLICIT} × class ×4 × position {type assignment, SEQUENCE component, SET component, CHOICE alternative, component of an anonymous nested type, SEQUENCE OF/SET OF element} × tagged kind {primitive, referenced SEQUENCE, referenced CHOICE, inline CHOICE, open type} (1440 points); automatic-tagging shapes (tag on no / each component × class × SEQUENCE/CHOICE × nested-only × after the marker) under every default; plus seeded random compositions with tags at every position. Observed: #[rasn(tag(..))] / automatic_tags via syn. Explicit marking on CHOICE/open-typed positions is not observable (rasn tags them explicitly itself) and is compared modulo that",
     );
     if let Some(r) = &cfg.replay {
-        judge("c03", &[case_from_replay(r).expect("bad replay")], &mut rep, &describe);
+        let c = case_from_replay(r).expect("bad replay");
+        if r.get("case").unwrap_or(r).get("setting").is_some() {
+            // the same type under every module default, in one compilation
+            let all: Vec<Case> = ENVS.iter().map(|e| Case { env: e, ..c.clone() }).collect();
+            judge_multi("c03", &all, &mut rep, &describe);
+        } else {
+            judge("c03", &[c], &mut rep, &describe);
+        }
         return rep;
     }
     let mut cases: Vec<Case> = load_corpus("C03").iter().filter_map(case_from_replay).collect();
@@ -164,5 +171,8 @@ pub fn run(cfg: &RunCfg) -> Report {
     cases.extend(random_cases(cfg, 0xC03, cfg.budget(800, 20000), || GenCfg { max_depth: 3, max_comps: 5, tags: true, groups: false, defaults: false }));
     rep.exhaustive = true;
     judge("c03", &cases, &mut rep, &describe);
+    // the module default is the *own* module's, also when other modules are compiled in the same run
+    let sample: Vec<Case> = cases.iter().step_by(if cfg.thorough { 3 } else { 9 }).cloned().collect();
+    judge_multi("c03", &sample, &mut rep, &describe);
     rep
 }
